@@ -355,7 +355,7 @@ theorem traffic_round {x : State} {a : A} (h : RInv cfg x a) (hna : MgrNotAll cf
       ∀ m ∈ owedOf cfg a9 (lastEvs (stepR cfg x r).out),
         (((trOf (lastEvs (stepR cfg x r).out)).map (·.1)).eraseDups).contains m.uid = true) :
     checkTraffic cfg a9 (lastEvs (stepR cfg x r).out) = a9 := by
-  obtain ⟨x2, T, a', rT, rR, lastIO, hP, hS2, _, hrR⟩ := round_pre ok hfuel h hna hord r hr
+  obtain ⟨x2, T, a', rT, rR, lastIO, hP, hS2, _, hrR, hW2⟩ := round_pre ok hfuel h hna hord r hr
   generalize ha7 : roundPre cfg a r (stepR cfg x r).out = a7 at hP ha9
   have hpre := hP.pre
   rw [ha7] at hpre
@@ -375,7 +375,7 @@ theorem traffic_round {x : State} {a : A} (h : RInv cfg x a) (hna : MgrNotAll cf
     exact List.append_eq_nil_iff.mp this
   have hD : dataSends isTrafficB (lastIO ++ T) = dataSends isTrafficB (ticks cfg x2).out := by
     rw [hP.ev.out, hpfx, List.append_assoc, dataSends_append _ pfx, hq0.1]; rfl
-  obtain ⟨sL, _, _, _, hrows⟩ := ticks_traffic ok hfuel hna hord hP.inv2.top hP.inv2.stat.idle (ackFrame cfg 0) rfl
+  obtain ⟨sL, _, _, _, _, hrows⟩ := ticks_traffic ok hfuel hna hord hP.inv2.top hP.inv2.stat.idle (ackFrame cfg 0) rfl
   have hmine := mine_eq (lastIO ++ T) o
   rw [hD, hrows o, hP.quietR] at hmine
   simp only [List.filter_nil, List.nil_append] at hmine
